@@ -27,6 +27,8 @@ pub fn dispatch(a: &Args) {
 		"c04" => chist::run(a, "C04"),
 		"c15" => chist::run(a, "C15"),
 		"c15r" => chist::run_restore(a),
+		"c04m" => chist::run_accounts(a, "C04"),
+		"c16m" => chist::run_accounts(a, "C16"),
 		"c12h" => chist::run(a, "C12"),
 		"c01" => c01::run(a),
 		"c02" => c02::run(a, "C02"),
